@@ -97,9 +97,12 @@ def gen_grid(rng, dyadic):
         n = 2
     elif roll < 0.75:
         n = rng.randrange(3, 6)
-    else:
+    elif roll < 0.985:
         n = rng.randrange(6, 65)
-    count = rng.choice([1, 2, 1000, 44100, 48000 * 200, rng.randrange(1, 10 ** 7), rng.randrange(1, 2 ** 31)])
+    else:
+        n = rng.choice([127, 128, 129, 255, 256, 257, 1000, 4000])   # grids as dense as a marker every few beats of a long set
+    count = rng.choice([1, 2, 1000, 44100, 48000 * 200, rng.randrange(1, 10 ** 7), rng.randrange(1, 2 ** 31),
+                        rng.choice([2 ** 31 - 1, 2 ** 31, 2 ** 31 + 1, 2 ** 32, 2 ** 32 + 5, 2 ** 40])])
     if dyadic:
         beat = F(rng.randrange(16 * 16, 16 * 65536), 16)
     else:
